@@ -153,7 +153,7 @@ out.append("EXTENDS Validators, TLC")
 out.append("\\* (the dummy parameter keeps TLC from evaluating the vectors serially while it pre-processes constants)")
 out.append("")
 for n, e in V:
-    out.append("V_%s(u) == %s" % (n, e))
+    out.append("V_%s(dummy) == %s" % (n, e))
 out.append("")
 out.append("VecNames == {%s}" % ", ".join('"%s"' % n for n in names))
 out.append("VecOk(n) == CASE " + "\n          [] ".join('n = "%s" -> V_%s(0)' % (n, n) for n in names))
